@@ -473,3 +473,47 @@ func NaryFamily() []*Model {
 	add(NaryOf(KInter, leaf("r1"), Bin(KDiff, leaf("aux"), leaf("aux2")), This()), user)
 	return out
 }
+
+// DeepEdgeFamily: r0 = (this op1 V) op2 aux in both operand orders of the outer operator, where the inner node
+// joins the direct assignment [user, group#member] with a second edge that reaches the same subjects by another
+// route (member from parent, r1 from parent, r1). One subject (user or userset) then reaches r0 through two
+// different edges of ONE operand of an intersection / exclusion - the shape where per-edge bookkeeping of the
+// reverse expansion ("this candidate still needs a Check") matters.
+func DeepEdgeFamily() []*Model {
+	user, member := Restr{Type: "user"}, Restr{Type: "group", Rel: "member"}
+	type second struct {
+		e      *Expr
+		parent []Restr
+		r1     relChoice
+	}
+	seconds := []second{
+		{TTU("parent", "member"), []Restr{{Type: "group"}}, relChoice{This(), []Restr{user}}},
+		{TTU("parent", "r1"), []Restr{{Type: "doc"}}, relChoice{This(), []Restr{user, member}}},
+		{Comp("r1"), []Restr{{Type: "doc"}}, relChoice{This(), []Restr{member}}},
+	}
+	ops := []Kind{KUnion, KInter, KDiff}
+	var out []*Model
+	for _, sc := range seconds {
+		for _, inner := range ops {
+			for _, outer := range ops {
+				for _, auxFirst := range []bool{false, true} {
+					in := Bin(inner, This(), sc.e)
+					r0 := Bin(outer, in, Comp("aux"))
+					if auxFirst {
+						r0 = Bin(outer, Comp("aux"), in)
+					}
+					m := &Model{Types: map[string]map[string]*RelDef{
+						"user":  {},
+						"group": {"member": {This(), []Restr{user}}, "banned": {This(), []Restr{user}}, "r1": {This(), []Restr{user}}},
+						"doc": {"parent": {This(), sc.parent}, "r1": {sc.r1.e, sc.r1.r}, "r0": {r0, []Restr{user, member}},
+							"aux": {This(), []Restr{user, member}}, "aux2": {This(), []Restr{user}}},
+					}}
+					if _, strat := m.SccOrder(); strat {
+						out = append(out, m)
+					}
+				}
+			}
+		}
+	}
+	return out
+}
